@@ -278,8 +278,9 @@ Definition item_ok (it : pitem) : bool :=
   | PQuoted txt => match txt with c :: _ => negb (c =? 39) | [] => false end && negb (existsb (Z.eqb 0) txt)
   | PApos k => 1 <=? k
   end.
+Definition apos_then_quoted (p it : pitem) : bool := match p, it with PApos _, PQuoted _ => true | _, _ => false end.
 Definition adj_ok (prev : option pitem) (it : pitem) : bool :=
-  match prev with None => true | Some p => negb (item_first p =? item_first it) && (is_run p || is_run it) end.
+  match prev with None => true | Some p => negb (item_first p =? item_first it) && (is_run p || is_run it || apos_then_quoted p it) end.
 Fixpoint swf (prev : option pitem) (items : list pitem) : bool :=
   match items with [] => true | it :: tl => item_ok it && adj_ok prev it && swf (Some it) tl end.
 
@@ -344,7 +345,7 @@ Proof.
     apply negb_true_iff, Z.eqb_neq in Hh.
     assert (Hn : next_ok (unparse tl)).
     { destruct tl as [|nx tl']; [exact I|]. pose proof Ht as Ht'. cbn [swf adj_ok] in Ht'. rewrite !andb_true_iff in Ht'. destruct Ht' as ((_ & (_ & Hr)) & _).
-      cbn [is_run orb] in Hr. apply (next_ok_unparse nx tl' (Some (PQuoted txt))); [rewrite Et; exact Ht | exact Hr]. }
+      cbn [is_run orb apos_then_quoted] in Hr. rewrite orb_false_r in Hr. apply (next_ok_unparse nx tl' (Some (PQuoted txt))); [rewrite Et; exact Ht | exact Hr]. }
     change (39 :: flat_map (fun c : Z => if c =? 39 then [39; 39] else [c]) txt ++ [39]) with (39 :: esc txt ++ [39]).
     cbn [app]. rewrite <- app_assoc. cbn [app]. rewrite Et at 1. cbn [esc flat_map]. destruct (Z.eqb_spec c0 39); [contradiction|]. cbn [app].
     rewrite rda_single by assumption. rewrite rda_other by assumption. fold (esc txt0). rewrite (rda_esc txt0 _ Hn).
@@ -554,15 +555,148 @@ Proof.
   apply fields_time_agree. apply Z.mod_pos_bound. unfold NANOS_PER_DAY. lia.
 Qed.
 
-(* the strict item grammar generates every pattern the oracle's grammar does, and is contained in it *)
-Lemma swf_wf : forall items prev, swf prev items = true -> wf_items items = true.
+(* ================= every item list of the oracle's grammar has a normal form in swf ================= *)
+(* leading apostrophes of a quoted text are written as an escaped-apostrophes item in front: same pattern text, same rendering *)
+Fixpoint lead_apos (txt : text) : nat := match txt with c :: tl => if c =? 39 then S (lead_apos tl) else O | [] => O end.
+Definition norm_item (it : pitem) : list pitem :=
+  match it with
+  | PQuoted txt => match lead_apos txt with O => [it] | S j => [PApos (Z.of_nat (S j)); PQuoted (skipn (S j) txt)] end
+  | _ => [it]
+  end.
+Definition norm (items : list pitem) : list pitem := flat_map norm_item items.
+
+Lemma lead_apos_split txt : txt = repeat_c 39 (lead_apos txt) ++ skipn (lead_apos txt) txt.
+Proof. induction txt as [|c tl IH]; [reflexivity|]. cbn [lead_apos]. destruct (Z.eqb_spec c 39) as [->|]; [|reflexivity]. cbn [repeat_c skipn app]. f_equal. exact IH. Qed.
+Lemma lead_apos_rest txt : existsb (fun c => negb (c =? 39)) txt = true ->
+  match skipn (lead_apos txt) txt with c :: _ => negb (c =? 39) | [] => false end = true.
 Proof.
-  induction items as [|it tl IH]; intros prev H; [reflexivity|]. pose proof H as H0. cbn [swf] in H. rewrite !andb_true_iff in H. destruct H as ((Hi & _) & Ht).
-  cbn [wf_items]. rewrite (IH (Some it) Ht), andb_true_r. apply andb_true_iff. split.
-  - destruct it as [c w | c k | txt | k]; cbn [item_ok] in Hi; try exact Hi.
-    destruct txt as [|c0 txt0]; [discriminate|]. apply andb_true_iff in Hi as [Hh H0']. rewrite H0'. cbn [existsb]. rewrite Hh. reflexivity.
-  - destruct tl as [|nx tl']; [reflexivity|]. cbn [swf adj_ok] in Ht. rewrite !andb_true_iff in Ht. destruct Ht as ((Hn & (Hne & Hr)) & _).
-    apply negb_true_iff in Hne.
-    destruct it as [c w | c k | txt | k], nx as [c' w' | c' k' | txt' | k']; cbn [item_char item_first is_run orb] in *; try reflexivity; try discriminate;
-    rewrite Hne; reflexivity.
+  induction txt as [|c tl IH]; [discriminate|]. cbn [existsb lead_apos]. destruct (Z.eqb_spec c 39) as [->|Hc]; cbn [negb orb skipn].
+  - exact IH.
+  - intros _. destruct (Z.eqb_spec c 39); [contradiction | reflexivity].
 Qed.
+Lemma esc_app a b : esc (a ++ b) = esc a ++ esc b. Proof. unfold esc. apply flat_map_app. Qed.
+Lemma esc_apos k : esc (repeat_c 39 k) = repeat_c 39 (2 * k).
+Proof. induction k as [|k IH]; [reflexivity|]. replace (2 * S k)%nat with (S (S (2 * k))) by lia. cbn [repeat_c]. unfold esc in *. cbn [flat_map Z.eqb Pos.eqb app]. rewrite IH. reflexivity. Qed.
+Lemma repeat_c_cons_comm c k l : c :: repeat_c c k ++ l = repeat_c c k ++ c :: l.
+Proof. induction k as [|k IH]; [reflexivity|]. cbn [repeat_c app]. rewrite IH. reflexivity. Qed.
+Lemma repeat_c_app c a b : repeat_c c (a + b) = repeat_c c a ++ repeat_c c b.
+Proof. induction a as [|a IH]; [reflexivity|]. cbn [Nat.add repeat_c app]. rewrite IH. reflexivity. Qed.
+
+Lemma norm_item_unparse it : flat_map unparse_item (norm_item it) = unparse_item it.
+Proof.
+  destruct it as [c w | c k | txt | k]; cbn [norm_item flat_map app]; rewrite ?app_nil_r; try reflexivity.
+  destruct (lead_apos txt) as [|j] eqn:El; [cbn [flat_map]; rewrite app_nil_r; reflexivity|].
+  cbn [flat_map unparse_item]. rewrite app_nil_r. rewrite (lead_apos_split txt) at 2. rewrite El.
+  change (flat_map (fun c : Z => if c =? 39 then [39; 39] else [c])) with esc. rewrite esc_app, esc_apos.
+  replace (Z.to_nat (2 * Z.of_nat (S j))) with (2 * S j)%nat by lia. rewrite <- app_assoc.
+  symmetry. apply (repeat_c_cons_comm 39 (2 * S j) (esc (skipn (S j) txt) ++ [39])).
+Qed.
+Lemma norm_unparse items : unparse (norm items) = unparse items.
+Proof.
+  unfold unparse, norm. induction items as [|it tl IH]; [reflexivity|]. cbn [flat_map]. rewrite flat_map_app, IH, norm_item_unparse. reflexivity.
+Qed.
+Lemma norm_item_render kind F it : flat_map (render_item kind F) (norm_item it) = render_item kind F it.
+Proof.
+  destruct it as [c w | c k | txt | k]; cbn [norm_item flat_map app]; rewrite ?app_nil_r; try reflexivity.
+  destruct (lead_apos txt) as [|j] eqn:El; [cbn [flat_map]; rewrite app_nil_r; reflexivity|].
+  cbn [flat_map render_item]. rewrite app_nil_r. rewrite (lead_apos_split txt) at 2. rewrite El. rewrite Nat2Z.id. reflexivity.
+Qed.
+Lemma norm_render kind F items : render kind F (norm items) = render kind F items.
+Proof.
+  unfold render, norm. induction items as [|it tl IH]; [reflexivity|]. cbn [flat_map]. rewrite flat_map_app, IH, norm_item_render. reflexivity.
+Qed.
+
+Definition wf_item (it : pitem) : bool :=
+  match it with
+  | PField c w => (1 <=? w) && (is_date_sym c || is_time_sym c)
+  | PLit c k => (1 <=? k) && negb (is_date_sym c || is_time_sym c) && negb (c =? 39) && negb (c =? 0)
+  | PQuoted txt => existsb (fun c => negb (c =? 39)) txt && negb (existsb (Z.eqb 0) txt)
+  | PApos k => 1 <=? k
+  end.
+Definition wf_adj (it nx : pitem) : bool :=
+  match item_char it, item_char nx with Some a, Some b => negb (a =? b) | None, None => false | _, _ => true end.
+Lemma wf_items_cons it tl : wf_items (it :: tl) = wf_item it && (match tl with nx :: _ => wf_adj it nx | [] => true end) && wf_items tl.
+Proof. destruct it; reflexivity. Qed.
+
+Definition first_norm (it : pitem) : pitem := match norm_item it with x :: _ => x | [] => it end.
+Definition last_norm (it : pitem) : pitem := match rev (norm_item it) with x :: _ => x | [] => it end.
+
+Lemma existsb0_skipn n : forall txt, existsb (Z.eqb 0) txt = false -> existsb (Z.eqb 0) (skipn n txt) = false.
+Proof. induction n as [|n IH]; intros [|c tl] H; cbn [skipn]; try assumption. cbn [existsb] in H. apply orb_false_iff in H as [_ H]. apply IH, H. Qed.
+
+(* the normal form of one item is well formed, starts / ends with the expected kind of item *)
+Lemma norm_item_swf prev it : wf_item it = true -> adj_ok prev (first_norm it) = true -> swf prev (norm_item it) = true.
+Proof.
+  intros Hw Ha. unfold first_norm in Ha. destruct it as [c w | c k | txt | k]; cbn [norm_item] in *.
+  - cbn [swf item_ok]. unfold is_sym. cbn [wf_item] in Hw. rewrite Hw, Ha. reflexivity.
+  - cbn [swf item_ok]. unfold is_sym. cbn [wf_item] in Hw. rewrite Hw, Ha. reflexivity.
+  - cbn [wf_item] in Hw. apply andb_true_iff in Hw as [He H0]. pose proof (lead_apos_rest txt He) as Hr. apply negb_true_iff in H0.
+    destruct (lead_apos txt) as [|j] eqn:El.
+    + cbn [skipn] in Hr. cbn [swf item_ok]. rewrite Hr, H0, Ha. reflexivity.
+    + cbn [swf item_ok adj_ok item_first is_run apos_then_quoted]. rewrite Hr, (existsb0_skipn (S j) txt H0), Ha.
+      assert (E : (1 <=? Z.of_nat (S j)) = true) by (apply Z.leb_le; lia). rewrite E. reflexivity.
+  - cbn [swf item_ok]. cbn [wf_item] in Hw. rewrite Hw, Ha. reflexivity.
+Qed.
+
+Lemma swf_app : forall a prev b, swf prev (a ++ b) = swf prev a && swf (match rev a with x :: _ => Some x | [] => prev end) b.
+Proof.
+  induction a as [|x a IH]; intros prev b; [reflexivity|]. cbn [app swf]. rewrite IH. rewrite <- !andb_assoc. f_equal. f_equal.
+  cbn [rev]. destruct (rev a) as [|y r]; reflexivity.
+Qed.
+Lemma norm_item_nonempty it : norm_item it <> [].
+Proof. destruct it as [c w | c k | txt | k]; cbn [norm_item]; try discriminate. destruct (lead_apos txt); discriminate. Qed.
+
+Lemma wf_item_first it : wf_item it = true -> is_run it = true -> item_first it <> 39 /\ item_first it <> 0.
+Proof.
+  destruct it as [c w | c k | txt | k]; cbn [is_run item_first wf_item]; try discriminate; intros H _.
+  - apply andb_true_iff in H as [_ H]. apply sym_not_special. exact H.
+  - rewrite !andb_true_iff, !negb_true_iff, !Z.eqb_neq in H. tauto.
+Qed.
+Lemma first_last_norm it : (is_run it = true -> first_norm it = it /\ last_norm it = it) /\
+  (is_run it = false -> (item_first (first_norm it) = 0 \/ item_first (first_norm it) = 39) /\ is_run (first_norm it) = false /\
+                        (item_first (last_norm it) = 0 \/ item_first (last_norm it) = 39) /\ is_run (last_norm it) = false /\
+                        apos_then_quoted (last_norm it) (first_norm it) = false).
+Proof.
+  unfold first_norm, last_norm. destruct it as [c w | c k | txt | k]; cbn [norm_item is_run rev app]; split; try discriminate; intros _; try (split; reflexivity).
+  - destruct (lead_apos txt); cbn [rev app item_first is_run apos_then_quoted]; repeat split; auto.
+  - cbn [item_first is_run apos_then_quoted]. repeat split; auto.
+Qed.
+
+Theorem norm_swf : forall items prev, wf_items items = true ->
+  (match items with it :: _ => adj_ok prev (first_norm it) = true | [] => True end) -> swf prev (norm items) = true.
+Proof.
+  induction items as [|it tl IH]; intros prev Hw Ha; [reflexivity|].
+  rewrite wf_items_cons in Hw. rewrite !andb_true_iff in Hw. destruct Hw as ((Hi & Hadj) & Htl).
+  unfold norm. cbn [flat_map]. fold (norm tl). rewrite swf_app, (norm_item_swf prev it Hi Ha). cbn [andb].
+  destruct (rev (norm_item it)) as [|x r] eqn:Er.
+  { exfalso. apply (norm_item_nonempty it). apply (f_equal (@rev pitem)) in Er. rewrite rev_involutive in Er. exact Er. }
+  apply IH; [exact Htl|]. destruct tl as [|nx tl']; [exact I|].
+  assert (Ex : x = last_norm it) by (unfold last_norm; rewrite Er; reflexivity). subst x.
+  rewrite wf_items_cons in Htl. rewrite !andb_true_iff in Htl. destruct Htl as ((Hin & _) & _).
+  destruct (first_last_norm it) as [Fr Fn]. destruct (first_last_norm nx) as [Nr Nn].
+  unfold wf_adj in Hadj. cbn [adj_ok].
+  destruct (is_run it) eqn:Rit; destruct (is_run nx) eqn:Rnx.
+  - destruct (Fr eq_refl) as [_ ->]. destruct (Nr eq_refl) as [-> _]. rewrite Rit. cbn [orb]. rewrite andb_true_r.
+    destruct it as [a ? | a ? | ? | ?], nx as [b ? | b ? | ? | ?]; try discriminate; cbn [item_char item_first] in *; exact Hadj.
+  - destruct (Fr eq_refl) as [_ ->]. rewrite Rit. cbn [orb]. rewrite andb_true_r.
+    destruct (Nn eq_refl) as (Hf & _). destruct (wf_item_first it Hi Rit) as [A B]. apply negb_true_iff, Z.eqb_neq. destruct Hf as [-> | ->]; assumption.
+  - destruct (Nr eq_refl) as [-> _]. rewrite Rnx. rewrite orb_true_r. cbn [orb]. rewrite andb_true_r.
+    destruct (Fn eq_refl) as (_ & _ & Hl & _). destruct (wf_item_first nx Hin Rnx) as [A B]. apply negb_true_iff, Z.eqb_neq. destruct Hl as [-> | ->]; congruence.
+  - exfalso. destruct it as [? ? | ? ? | ? | ?], nx as [? ? | ? ? | ? | ?]; try discriminate; cbn [item_char] in Hadj; discriminate.
+Qed.
+
+(* hence the format theorems hold for every item list of the oracle's grammar *)
+Corollary wf_swf_norm items : wf_items items = true -> swf None (norm items) = true /\ unparse (norm items) = unparse items /\
+  forall kind F, render kind F (norm items) = render kind F items.
+Proof.
+  intros H. split; [apply norm_swf; [exact H | destruct items; [exact I | reflexivity]]|]. split; [apply norm_unparse | intros; apply norm_render].
+Qed.
+
+Theorem date_format_wf d items : wf_items items = true -> date_format d (unparse items) = Ok (render 0 (fields_of_day d 0 0) items).
+Proof. intros H. destruct (wf_swf_norm items H) as (S & U & R). rewrite <- U, <- R. apply date_format_items. exact S. Qed.
+Theorem time_format_wf t items : Inv_tm t -> wf_items items = true ->
+  time_format t (unparse items) = Ok (render 1 (fields_of_day 0 ((tm_nanos t + tm_off t * NANOS_PER_SEC) mod NANOS_PER_DAY) (tm_off t)) items).
+Proof. intros I H. destruct (wf_swf_norm items H) as (S & U & R). rewrite <- U, <- R. apply time_format_items; assumption. Qed.
+Theorem dt_format_wf v items : Valid_dt v -> wf_items items = true ->
+  dt_format v (unparse items) = Ok (render 2 (fields_of_day (local_instant v / NANOS_PER_DAY) (local_instant v mod NANOS_PER_DAY) (dt_off v)) items).
+Proof. intros I H. destruct (wf_swf_norm items H) as (S & U & R). rewrite <- U, <- R. apply dt_format_items; assumption. Qed.
